@@ -175,6 +175,19 @@ class Path:
         self.notes = []
         self.solver_secs = 0.0
         self.assumed = []  # descriptions of assumptions made on this path
+        self._ix = (None, 0, set(), set())  # index of self.pc: (list object, length indexed, term ids, symbol names)
+
+    def pc_index(self):
+        """(ids of the conjuncts of the path condition, symbols they mention); maintained incrementally -
+        the path condition only grows by append (a replaced list is re-indexed)."""
+        lst, n, ids, syms = self._ix
+        if lst is not self.pc or n > len(self.pc):
+            lst, n, ids, syms = self.pc, 0, set(), set()
+        for c in self.pc[n:]:
+            ids.add(c.get_id())
+            syms |= term_vars(c)
+        self._ix = (lst, len(self.pc), ids, syms)
+        return ids, syms
 
     # -- assumptions ---------------------------------------------------------------
     def assume(self, c, why=None):
@@ -221,7 +234,7 @@ class Path:
             # path condition -> infeasible; `extra` itself is one -> as feasible as the path condition
             # (satisfiable by construction: every branch taken was checked)
             neg = extra.arg(0) if z3.is_not(extra) else None
-            ids = {c.get_id() for c in self.pc}
+            ids, syms = self.pc_index()
             if (neg is not None and neg.get_id() in ids) or z3.Not(extra).get_id() in ids:
                 return False
             if extra.get_id() in ids:
@@ -231,7 +244,7 @@ class Path:
             core = neg if neg is not None else extra
             if z3.is_const(core) and core.decl().kind() == z3.Z3_OP_UNINTERPRETED:
                 nm = core.decl().name()
-                if not any(nm in term_vars(c) for c in self.pc):
+                if nm not in syms:
                     return True
         s = z3.Solver()
         s.set("timeout", self.FEAS_TIMEOUT_MS)
@@ -251,11 +264,11 @@ class Path:
         if isinstance(cond, bool):
             return cond
         t0 = sym.tobool_t(cond)
-        for p in self.pc:
-            # the condition is literally a conjunct of the path condition (e.g. the UTF-8 validity of
-            # bytes that were assumed valid): true on this path, no solver call, no decision consumed
-            if p.eq(t0):
-                return True
+        # the condition is literally a conjunct of the path condition (e.g. the UTF-8 validity of
+        # bytes that were assumed valid): true on this path, no solver call, no decision consumed
+        # (terms are hash-consed: same live term <=> same ast id)
+        if self.pc and t0.get_id() in self.pc_index()[0]:
+            return True
         c = z3.simplify(t0)
         if z3.is_true(c):
             return True
